@@ -5,9 +5,9 @@ import "verif/txpipe"
 
 func main() {
 	txpipe.Main(txpipe.CheckDef{
-		ID:      "C06",
-		Groups:  []string{"idx", "atom"},
-		Oracles: txpipe.Oracles{IndexAgree: true},
+		ID:         "C06",
+		Groups:     []string{"idx", "atom"},
+		Oracles:    txpipe.Oracles{IndexAgree: true},
 		QuickBound: 1, ThoroughBound: 2,
 		Rule: "Oracle: in every published state, for every table, every index reaches exactly the same set of record offsets, is strictly ordered, and each entry's key is the key computed from its row; the final persisted state passes the database's own full check.",
 	})
